@@ -250,16 +250,29 @@ KIND_ID = {"create_excl": 0, "write": 1, "fsync": 2, "rename": 3, "unlink": 4, "
 
 
 class _WFile:
-    """proxy of a file object opened for writing: logs the content at close"""
+    """proxy of a file object opened for writing.  The operation is logged at
+    the position of the open (create/truncate) under the name the file had
+    then; its content is filled in when the file is closed."""
 
-    def __init__(self, rec, f, role, log_write):
-        self._rec, self._f, self._role, self._log = rec, f, role, log_write
-        self._wrote = log_write
+    def __init__(self, rec, f, role, truncating):
+        self._rec, self._f, self._role = rec, f, role
+        self._buf = bytearray()
+        self._entry = None
         self._fd = f.fileno()
         rec.fdrole[self._fd] = role
+        if truncating:
+            self._begin()
+
+    def _begin(self):
+        if self._entry is None and self._rec.ops is not None:
+            self._entry = ["write", self._role, b""]
+            self._rec.ops.append(self._entry)
 
     def write(self, data):
-        self._wrote = True
+        self._begin()
+        self._buf += bytes(data)
+        if self._entry is not None:
+            self._entry[2] = bytes(self._buf)
         return self._f.write(data)
 
     def close(self):
@@ -267,9 +280,6 @@ class _WFile:
             return
         self._f.close()
         self._rec.fdrole.pop(self._fd, None)
-        if self._wrote and self._rec.ops is not None:
-            with self._rec.real_open(self._f.name, "rb") as g:
-                self._rec.ops.append(("write", self._role, g.read()))
 
     def __enter__(self):
         return self
@@ -460,7 +470,7 @@ def classify(spec, w):
 
 def decodable(b, consts):
     try:
-        d = pickle.load(io.BytesIO(b))
+        d = pickle.loads(b)
         return isinstance(d, dict) and consts["MIN_VERSION"] <= d["version"] <= consts["CUR_VERSION"] \
             and all(k in d for k in ("byNameDirs", "results", "inputs"))
     except Exception:
@@ -740,6 +750,14 @@ class Runner:
                         c, {r: len(d) for r, (d, _) in sim.items()}, {r: len(d) for r, d in real.items()}))
                 if saved_obs is not None:
                     cands.append(saved_obs)
+                if c[0] == "finalize" and view == "VAssertFail" and depth == 0:
+                    self.viol("unsaved-changes-outside-async-section", "finalize() raised AssertionError although no asynchronous section is open")
+                if live is not None and depth == 0 and c[0] in ("api", "sync") and c not in SWEEP_SET:
+                    newest = sim.get("new", sim.get("pickle"))
+                    expect = self.content_obs.get(newest[0]) if newest is not None else impl_init_obs(impl)
+                    if expect is not None and impl.observe(live) != expect:
+                        self.viol("memory-differs-from-disk-outside-async-section",
+                                  "after %r the getters show a state that is not the newest state file on disk (a change was not saved)" % (c[:3],))
                 if c[0] == "start" and view == "VStarted" and second is None:
                     obs = impl.observe(live)
                     if obs not in cands:
@@ -971,15 +989,38 @@ def gen_history(rng, long=False):
 # ---------------------------------------------------------------- Coq cases
 def norm_preamble():
     pairs = ["(%s, %s)" % (L.s(a), L.s(os.path.normpath(a))) for a in ATTIC if os.path.normpath(a) != a]
-    return "Definition nrm : key -> key := norm_of [%s].\n" % "; ".join(pairs)
+    sw = "Definition SW : list tev := %s.\n" % L.lst([coq_tev(("cmd", c)) for c in SWEEP])
+    return "Definition nrm : key -> key := norm_of [%s].\n" % "; ".join(pairs) + sw
+
+
+def tev_list_lit(evs):
+    """list tev literal; runs of the getter sweep are written as the shared definition SW"""
+    sw = [("cmd", c) for c in SWEEP]
+    n = len(sw)
+    segs, cur, i = [], [], 0
+    while i < len(evs):
+        if n and [tuple(e[:2]) for e in evs[i:i + n]] == sw and all(e[0] == "cmd" for e in evs[i:i + n]):
+            if cur:
+                segs.append(L.lst(cur))
+                cur = []
+            segs.append("SW")
+            i += n
+        else:
+            cur.append(coq_tev(evs[i]))
+            i += 1
+    if cur:
+        segs.append(L.lst(cur))
+    if not segs:
+        return "(@nil tev)"
+    return "(" + " ++ ".join(segs) + ")"
 
 
 def case_lits(res):
-    main = L.lst([coq_tev(e) for e in res["events"]]) if res["events"] else "(@nil tev)"
+    main = tev_list_lit(res["events"])
     sides = []
     es = []
     for s in res["sides"]:
-        sides.append("(%d%%nat, %s)" % (s["n"], L.lst([coq_tev(e) for e in s["tevs"]])))
+        sides.append("(%d%%nat, %s)" % (s["n"], tev_list_lit(s["tevs"])))
         es.append(L.lst([view_lit(*s["first"])] + [view_lit(v, sh) for v, sh in s["steps"]]))
     main_views = [view_lit(v, sh) for v, sh in res["views"]]
     exp_main = L.lst(main_views) if main_views else "(@nil step_view)"
@@ -988,18 +1029,30 @@ def case_lits(res):
     return inp, exp
 
 
-def fs_lit(fs):
-    def f(role):
-        if role not in fs:
-            return "None"
-        d, s = fs[role]
-        return "(Some (@mkFile bytes %s %s))" % (L.by(d), L.B(s))
-    return "(@mkFs bytes %s %s %s %s)" % (f("pickle"), f("new"), f("dirty"), f("lock"))
+def bl(b):
+    """bytes -> list N literal; cons chain (the bracket notation is much slower in coqc for long lists)"""
+    if not b:
+        return "(@nil N)"
+    return "(" + "::".join(str(x) for x in b) + "::nil)"
 
 
 def raw_lits(c):
-    tab = L.lst(["(%s, %s)" % (L.by(b), L.B(ok)) for b, ok in c["tab"]]) if c["tab"] else "(@nil (bytes * bool))"
-    inp = "(%s, %s)" % (tab, fs_lit(c["fs"]))
+    """input (decodability table, image); every content is written once and shared by let"""
+    fs = c["fs"]
+    lets, nm = [], {}
+    for role in ("pickle", "new", "dirty", "lock"):
+        if role in fs:
+            nm[role] = "x_" + role
+            lets.append("let %s := %s in " % (nm[role], bl(fs[role][0])))
+
+    def f(role):
+        if role not in fs:
+            return "None"
+        return "(Some (@mkFile bytes %s %s))" % (nm[role], L.B(fs[role][1]))
+    okmap = {b: ok for b, ok in c["tab"]}
+    tab = ["(%s, %s)" % (nm[r], L.B(okmap[fs[r][0]])) for r in ("pickle", "new") if r in fs]
+    tabl = L.lst(tab) if tab else "(@nil (bytes * bool))"
+    inp = "(%s(%s, @mkFs bytes %s %s %s %s))" % ("".join(lets), tabl, f("pickle"), f("new"), f("dirty"), f("lock"))
     fp = "(@None (N * N))" if c["fp"] is None else "(Some (%d, %d))" % c["fp"]
     exp = "(%d, %s, %s)" % (c["kind"], fp, shapes_lit(c["shapes"]))
     return inp, exp
@@ -1058,11 +1111,6 @@ def from_json_events(evs):
     return out
 
 
-def side_as_main(res_events, side):
-    """history = main events before the branch point + crash + start"""
-    return list(res_events[:side["n"]]) + [tuple(side["tevs"][0]) + ({},), ("cmd", ("start",)), ("cmd", ("finalize",))]
-
-
 # ---------------------------------------------------------------- main
 def load_corpus():
     out = []
@@ -1104,10 +1152,12 @@ def run(ctx):
     with Impl(ctx, consts) as impl:
         if ctx.replay:
             return replay(ctx, impl)
-        n_hist = ctx.n(130, 2500)
-        n_sides = ctx.n(10, 24)
-        n_raw = ctx.n(260, 5000)
+        n_hist = ctx.n(90, 400)
+        n_sides = ctx.n(7, 14)
+        n_raw = ctx.n(160, 1000)
         cases, metas, raws, seals = [], [], [], []
+        reported = set()
+        first_bad = None
         todo = [("corpus:" + n, evs) for n, evs in load_corpus()]
         todo += [("gen", None)] * n_hist
         for idx, (src, evs) in enumerate(todo):
@@ -1128,6 +1178,9 @@ def run(ctx):
                 elif e[1][0] == "api" and e[1] not in SWEEP_SET:
                     ctx.count("call:" + e[1][1])
             for sig, what, hist in r.found:
+                if sig in reported:
+                    continue          # one minimised witness per class
+                reported.add(sig)
                 report(ctx, impl, sig, what, hist if hist is not None else evs)
             cases.append(case_lits(res))
             metas.append({"source": src, "events": to_json_events(res["events"])[:120], "n_sides": len(res["sides"])})
@@ -1136,14 +1189,16 @@ def run(ctx):
             if len(ctx.cov["samples"]) < 4 and res["sides"]:
                 ctx.sample({"history_events": len(res["events"]), "first_events": to_json_events(res["events"])[:6],
                             "side_images": len(res["sides"])})
-            if ctx.violations and len(ctx.violations) >= 3:
-                break
+            if ctx.violations:
+                first_bad = idx if first_bad is None else first_bad
+                if idx - first_bad >= 5:
+                    break          # the implementation is broken; a few more histories for other classes, then stop
         os.chdir(impl.cwd0)
 
     # ---- model: histories on the symbolic instance
     pre = norm_preamble()
     bad, log = coq.run_cases(ctx, ["BobV.C10.Fs", "BobV.C10.Model"], "(fun i => run_case nrm (fst i) (snd i))", "case_eqb",
-                             cases, preamble=pre, tag="hist", shard=max(4, (len(cases) + 7) // 8))
+                             cases, preamble=pre, tag="hist", shard=18)
     if bad is None:
         ctx.tie_broken("C10 model evaluation failed (histories)", log)
     else:
@@ -1172,7 +1227,7 @@ def run(ctx):
                     pick.append(seen[key].pop())
         rcases = [raw_lits(c) for c in pick]
         bad, log = coq.run_cases(ctx, ["BobV.C10.Fs", "BobV.C10.Model"], "(fun i => raw_start_view (fst i) (snd i))", "raw_eqb",
-                                 rcases, preamble=PRE_RAW, tag="raw", shard=max(8, (len(rcases) + 7) // 8))
+                                 rcases, preamble=PRE_RAW, tag="raw", shard=25)
         if bad is None:
             ctx.tie_broken("C10 model evaluation failed (byte-level start)", log[:1500] + " ... " + log[-300:])
         else:
@@ -1184,10 +1239,10 @@ def run(ctx):
                                                             "impl": [c["kind"], c["fp"], c["shapes"]], "class": c["cls"]})
         # seal: what __save writes is payload ++ Adler-32 trailer
         uniq = sorted(set(seals), key=lambda b: (len(b), b))
-        step = max(1, len(uniq) // ctx.n(40, 600))
-        scases = [(L.by(b[:-4]), L.by(b)) for b in uniq[::step] if len(b) >= 4]
+        step = max(1, len(uniq) // ctx.n(24, 200))
+        scases = [(bl(b[:-4]), bl(b)) for b in uniq[::step] if len(b) >= 4]
         bad, log = coq.run_cases(ctx, ["BobV.C10.Fs", "BobV.C10.Model"], "seal", "bytes_eqb", scases, tag="seal",
-                                 shard=max(5, (len(scases) + 3) // 4))
+                                 shard=12)
         if bad is None:
             ctx.tie_broken("C10 model evaluation failed (seal)", log)
         else:
